@@ -35,20 +35,37 @@ ASSUMPTIONS = ["library heap objects have the literal size VP_OBJ=160 (requests 
 DESIGN_REF = "DESIGN.md §5 C42, §3.3"
 
 VP_OBJ = 160
-H = "C42_tagging.c"
+HM = "C42_tagmodel.c"      # event_tagging.c over the evbuffer contract model (all sizes symbolic)
+HR = "C42_tagging.c"       # event_tagging.c over the real buffer.c (size classes)
+
 # loop bounds: exact iteration bound + 1 (value loops terminate by arithmetic the symex simplifier cannot see, so a generous bound is
 # unwound in full: keep them tight; unwinding assertions are on, a too small bound is reported)
-LOOPS = {"vp_bytes.0": 17, "vp_evb_byte.0": 8, "vp_evb_check.0": 8, "vp_evb_nchains.0": 8, "exp_bytes.0": 6, "tagref_enc_tag.0": 6, "tagref_nibbles.0": 17,
-         "tagref_enc_int.0": 10, "tagref_enc_int.1": 17, "tagref_dec_tag.0": 6, "tagref_dec_int.0": 17, "harness_roundtrip.0": 6, "harness_roundtrip.1": 6,
-         "harness_decode.0": 17, "harness_decode.1": 17, "evtag_encode_tag.0": 6, "encode_int_internal.0": 9, "encode_int64_internal.0": 17,
-         "decode_tag_internal.0": 7, "decode_int_internal.0": 9, "decode_int64_internal.0": 17, "strlen.0": 6}
+def loops(L):
+    return {"vp_bytes.0": max(L, 16) + 1, "exp_bytes.0": 6, "tagref_enc_tag.0": 6, "tagref_nibbles.0": 17, "tagref_enc_int.0": 10, "tagref_enc_int.1": 17,
+            "tagref_dec_tag.0": 6, "tagref_dec_int.0": 17, "rt_draw.0": 6, "evtag_encode_tag.0": 6, "encode_int_internal.0": 9,
+            "encode_int64_internal.0": 17, "decode_tag_internal.0": 7, "decode_int_internal.0": 9, "decode_int64_internal.0": 17, "strlen.0": 6,
+            # contract model / byte-string model: constant-bound loops
+            "vpb_init.0": 130, "vpb_append.0": 130, "vpb_copyout.0": 66, "evbuffer_remove.0": 66, "evbuffer_pullup.0": 18,
+            # real evbuffers
+            "vp_evb_byte.0": 8, "vp_evb_check.0": 8, "vp_evb_nchains.0": 8}
 
-def _ob(name, entry, defs, desc, copy=12, ndebug=False, timeout=600, mem_gb=5, **kw):
-    ob = dict(name=name + ("__ndebug" if ndebug else ""), harness=H, entry=entry,
-              defines=["LIBEVENT_VERIF_MIN_BUFFER_SIZE=64", "VP_OBJ=%d" % VP_OBJ] + defs,
-              desc=desc + (" (NDEBUG build)" if ndebug else ""), unwind=8,
+def model_ob(name, entry, defs, desc, L=12, ndebug=False, timeout=300, mem_gb=4, **kw):
+    ob = dict(name="m_" + name + ("__ndebug" if ndebug else ""), harness=HM, entry=entry, defines=defs,
+              desc="[contract model] " + desc + (" (NDEBUG build)" if ndebug else ""), unwind=8,
+              unwindset=["%s:%d" % (l, n) for l, n in sorted(loops(L).items())],
+              timeout=timeout, mem_gb=mem_gb, ndebug=ndebug)
+    ob.update(kw)
+    return ob
+
+def real_ob(name, entry, defs, desc, L=12, copy=18, ndebug=False, timeout=300, mem_gb=4, **kw):
+    lp = loops(L)
+    lp.update({"harness_roundtrip.0": 11, "harness_roundtrip.1": 12, "harness_roundtrip.2": 8, "harness_decode.0": L + 3, "harness_decode.1": 12,
+               "tb_mkdec.0": L + 2, "tb_mkdec.1": L + 2, "rt_run.0": 17})
+    ob = dict(name="r_" + name + ("__ndebug" if ndebug else ""), harness=HR, entry=entry,
+              defines=["LIBEVENT_VERIF_MIN_BUFFER_SIZE=64", "VP_OBJ=%d" % VP_OBJ, "VP_NO_REST"] + defs,
+              desc="[real buffer.c] " + desc + (" (NDEBUG build)" if ndebug else ""), unwind=5,
               unwindset=["evbuffer_chain_free:1", "evbuffer_decref_and_unlock_:1", "evbuffer_file_segment_free:1"] +
-                        ["%s:%d" % (l, n) for l, n in sorted(LOOPS.items())] + ["%s:%d" % (l, copy) for l in _c12.COPY_LOOPS],
+                        ["%s:%d" % (l, n) for l, n in sorted(lp.items())] + ["%s:%d" % (l, copy) for l in _c12.COPY_LOOPS],
               cbmc=["--max-field-sensitivity-array-size", str(VP_OBJ), "--object-bits", "10"],
               instrument=[["--replace-calls", "evbuffer_decref_and_unlock_:vp_cut_decref"],
                           ["--replace-calls", "evbuffer_file_segment_free:vp_cut_segfree"]],
@@ -72,17 +89,63 @@ RTS = [("INT", "evtag_encode_int/evtag_decode_int, all 32-bit values"),
 DECS = ["INT", "INT64", "TAG", "PEEK", "PEEK_LENGTH", "PAYLOAD_LENGTH", "HEADER", "CONSUME", "UNMARSHAL", "UINT", "UINT64", "FIXED", "STRING", "TIMEVAL"]
 TAG_FIRST = ("TAG", "PEEK", "PEEK_LENGTH", "PAYLOAD_LENGTH", "HEADER", "CONSUME", "UNMARSHAL", "UINT", "UINT64", "FIXED", "STRING", "TIMEVAL")
 
+KF6_TEXT = ["dereference failure: pointer outside object bounds in *tmp_post_data"]
+
 def obligations(tier):
     obs = []
-    pres = [0, 13] if tier == "quick" else [0, 13, 15]
     for k, d in RTS:
-        for pre in pres:
-            if pre and k in ("WRONGTAG",): continue
-            obs.append(_ob("rt_%s_pre%d" % (k.lower(), pre), "harness_roundtrip", ["RT=RT_" + k, "VP_PRE=%d" % pre], "round trip: %s; item at offset %d" % (d, pre), copy=max(pre, 10) + 2))
+        obs.append(model_ob("rt_%s" % k.lower(), "harness_roundtrip", ["RT=RT_" + k], "round trip: " + d))
     L = 10 if tier == "quick" else 12
     for k in DECS:
         defs = ["DEC=DEC_" + k, "VP_L=%d" % L]
         if k in TAG_FIRST: defs.append("KF_EXCLUDE_TAG6")
-        obs.append(_ob("dec_%s" % k.lower(), "harness_decode", defs, "decoder %s on arbitrary bytes, length <= %d, every 2-chain split%s" %
-                       (k, L, " (excluding the KF-C42-tag-overread inputs)" if k in TAG_FIRST else ""), copy=L + 2))
+        obs.append(model_ob("dec_%s" % k.lower(), "harness_decode", defs, "decoder %s on arbitrary bytes, length <= %d%s" %
+                            (k, L, " (excluding the KF-C42-tag-overread inputs)" if k in TAG_FIRST else ""), L=L))
+    # ---- the same routines on real evbuffers (single-stage routines; size classes) ----
+    for k, d in RTS:
+        if k in ("INT", "INT64", "TAG"):
+            obs.append(real_ob("rt_%s_pre0" % k.lower(), "harness_roundtrip", ["RT=RT_" + k], "round trip: %s; single chain" % d))
+            for pre in ([13] if tier == "quick" else [13, 15]):
+                extra = [] if k == "TAG" else ["VP_LEAF_INTERNAL"]
+                obs.append(real_ob("rt_%s_pre%d" % (k.lower(), pre), "harness_roundtrip", ["RT=RT_" + k, "VP_PRE=%d" % pre] + extra,
+                                   "round trip: %s; item behind %d bytes, straddling the 16-byte chain boundary%s" %
+                                   (d, pre, "" if k == "TAG" else " (decoded by decode_int_internal, the routine behind evtag_decode_int)")))
+        elif k in ("MINT", "MINT64", "TIMEVAL", "STRING", "RAW", "BUFFER"):
+            combos = [(0, 2), (13, 1), (13, 5)] if tier == "quick" else [(pre, a) for pre in (0, 13, 15) for a in (1, 2, 3, 4, 5)]
+            for pre, a in combos:
+                obs.append(real_ob("enc_%s_pre%d_tag%d" % (k.lower(), pre, a), "harness_roundtrip", ["RT=RT_" + k, "VP_PRE=%d" % pre, "VP_ENC_ONLY", "VP_A=%d" % a],
+                                   "marshalled bytes == reference wire format: %s; tags of %d encoded byte(s); item at offset %d" % (d.split(",")[0].split("/")[0], a, pre)))
+    # decoders on arbitrary bytes of length wl, split at wk over two exact-size reference chains
+    if tier == "quick":
+        plan = {"TAG": [7], "PEEK": [7], ("INTI", 0): [6], ("INT64I", 0): [10], ("INTI", 2): [8]}
+    else:
+        plan = {"TAG": range(0, 13), "PEEK": range(0, 13), ("INTI", 0): range(0, 13), ("INT64I", 0): range(0, 13), ("INTI", 2): range(0, 13)}
+    for key, lens in plan.items():
+        for wl in lens:
+            for wk in range(0, wl + 1):
+                if isinstance(key, str):
+                    obs.append(real_ob("dec_%s_L%d_K%d" % (key.lower(), wl, wk), "harness_decode",
+                                       ["DEC=DEC_" + key, "VP_WL=%d" % wl, "VP_WK=%d" % wk, "VP_L=%d" % max(wl, 1), "KF_EXCLUDE_TAG6"],
+                                       "decoder %s on arbitrary bytes of length %d split %d+%d over two exact-size reference chains (excluding the KF-C42-tag-overread inputs)" %
+                                       (key, wl, wk, wl - wk), L=12))
+                else:
+                    k, off = key
+                    obs.append(real_ob("dec_%s_off%d_L%d_K%d" % (k.lower(), off, wl, wk), "harness_decode",
+                                       ["DEC=DEC_" + k, "VP_WL=%d" % wl, "VP_WK=%d" % wk, "VP_L=%d" % max(wl, 1), "VP_OFF=%d" % off],
+                                       "decode_%s_internal(offset %d) on arbitrary bytes of length %d split %d+%d over two exact-size reference chains" %
+                                       ("int" if k == "INTI" else "int64", off, wl, wk, wl - wk), L=12))
+    for k in ("INT", "INT64"):
+        for wl in ([6] if tier == "quick" else range(0, 13)):
+            obs.append(real_ob("dec_%s_single_L%d" % (k.lower(), wl), "harness_decode", ["DEC=DEC_" + k, "VP_WL=%d" % wl, "VP_WK=%d" % wl, "VP_L=%d" % max(wl, 1), "VP_SINGLE"],
+                               "evtag_decode_%s on arbitrary bytes of length %d in one exact-size reference chain" % (k.lower(), wl), L=12))
+    for k in ("TAG", "PEEK"):
+        obs.append(real_ob("dec_%s_kf6" % k.lower(), "harness_decode", ["DEC=DEC_" + k, "VP_WL=6", "VP_WK=5", "VP_L=6", "KF_ONLY_TAG6"],
+                           "decoder %s on the KF-C42-tag-overread inputs, 6 bytes split 5+1 over two exact-size reference chains" % k, L=12,
+                           expect_fail=KF6_TEXT, known_finding="KF-C42-tag-overread"))
+    # finding KF-C42-tag-overread: exactly the excluded inputs, on the two routines that expose decode_tag_internal.
+    # Fails on the unpatched tree (expect_fail), passes with fixes/C42-tag-overread.diff applied.
+    for k in ("TAG", "PEEK"):
+        obs.append(model_ob("dec_%s_kf6" % k.lower(), "harness_decode", ["DEC=DEC_" + k, "VP_L=%d" % L, "KF_ONLY_TAG6"],
+                            "decoder %s on the KF-C42-tag-overread inputs (five continuation bytes, more data behind them), length <= %d" % (k, L), L=L,
+                            expect_fail=KF6_TEXT, known_finding="KF-C42-tag-overread"))
     return obs
